@@ -22,9 +22,17 @@
    at string, kind + 8 = at a comparable struct with a string field (kinds
    4..11).  The model has no element type but Z and ignores the instance: the
    projected observation must not depend on it.
-   (mirror: harness/c19.go) *)
 
-From Gogu Require Import Base Mem C19_Model.
+   Element types whose == is not the identity of values (the NaN extension,
+   C19_ModelNaN.v): kinds 12..15 = the four record formats at float64, 16..19 at
+   struct{X float64; N int}, 20..23 at `any`.  The values on the wire are element
+   CODES (C19_ModelNaN.c_nan, c_nz, c_u1, c_u2, c_u3; every other integer an
+   ordinary value); these kinds are run by the generic transcription at
+   [c19eq] and judged by the generic list machine at [c19eq].  The instance
+   (which Go type carries the codes) is again ignored by the model.
+   (mirror: harness/c19.go, harness/c19nan.go) *)
+
+From Gogu Require Import Base Mem C19_Model C19_ModelNaN.
 
 Definition op_of (r : list Z) : option op :=
   match r with
@@ -129,13 +137,61 @@ Definition decode_q (w : list Z) : option (kind * Z * list qop) :=
   | _ => None
   end.
 
+(* the NaN extension: kinds 12..23 *)
+Definition kind_step_nan (k : Z) : option kind :=
+  if (k =? 12) || (k =? 16) || (k =? 20) then Some KS
+  else if (k =? 13) || (k =? 17) || (k =? 21) then Some KD else None.
+Definition kind_look_nan (k : Z) : option kind :=
+  if (k =? 14) || (k =? 18) || (k =? 22) then Some KS
+  else if (k =? 15) || (k =? 19) || (k =? 23) then Some KD else None.
+
+Definition decode_nan (w : list Z) : option (kind * Z * list op) :=
+  match w with
+  | k :: v :: rest =>
+      match kind_step_nan k, ops_of (chunks 3 rest) with
+      | Some kd, Some ops => Some (kd, v, ops)
+      | _, _ => None
+      end
+  | _ => None
+  end.
+
+Definition decode_qnan (w : list Z) : option (kind * Z * list qop) :=
+  match w with
+  | k :: v :: rest =>
+      match kind_look_nan k, qops_of (chunks 3 rest) with
+      | Some kd, Some ops => Some (kd, v, ops)
+      | _, _ => None
+      end
+  | _ => None
+  end.
+
+Definition c19_run_nan (w : list Z) : list Z :=
+  match decode_nan w with
+  | Some (k, v, ops) => flat_map enc_obs (grun_model c19eq k v ops)
+  | None =>
+      match decode_qnan w with
+      | Some (k, v, ops) => flat_map enc_qobs (grunq_model c19eq k v ops)
+      | None => wire_error
+      end
+  end.
+
+Definition c19_spec_nan (w : list Z) : list Z :=
+  match decode_nan w with
+  | Some (k, v, ops) => flat_map enc_obs (grun_spec c19eq k v ops)
+  | None =>
+      match decode_qnan w with
+      | Some (k, v, ops) => flat_map enc_qobs (grunq_spec c19eq k v ops)
+      | None => wire_error
+      end
+  end.
+
 Definition c19_run (w : list Z) : list Z :=
   match decode w with
   | Some (k, v, ops) => flat_map enc_obs (run_model k v ops)
   | None =>
       match decode_q w with
       | Some (k, v, ops) => flat_map enc_qobs (runq_model k v ops)
-      | None => wire_error
+      | None => c19_run_nan w
       end
   end.
 
@@ -146,7 +202,7 @@ Definition c19_spec (w : list Z) : list Z :=
   | None =>
       match decode_q w with
       | Some (k, v, ops) => flat_map enc_qobs (runq_spec k v ops)
-      | None => wire_error
+      | None => c19_spec_nan w
       end
   end.
 
